@@ -121,6 +121,48 @@ func pageCase(cfg *config, id int, path string, v storage.VerifNode, nontrivial 
 		}
 		cfg.st.Inc("roundtrip")
 	}
+	// the same logical leaf held differently in memory: the cells a split left behind still in the cell slice
+	// (what every left half of a split looks like while it is resident), and a physical cell order that differs
+	// from the slot order; what is written and read back is the same page (tenth seeded round)
+	if v.Leaf && len(v.Offsets) >= 2 && len(v.Offsets) == len(v.Cells) && err == nil && pmsg == "" {
+		for variant := 0; variant < 2; variant++ {
+			w := v
+			n := len(v.Offsets)
+			w.Offsets = make([]uint16, n)
+			w.Cells = make([]storage.VerifCell, n, n+3)
+			for slot := 0; slot < n; slot++ {
+				ph := slot
+				if variant == 1 {
+					ph = n - 1 - slot // physical order reversed against the slot order
+				}
+				w.Offsets[slot] = uint16(ph)
+				w.Cells[ph] = v.Cells[v.Offsets[slot]]
+			}
+			for k := 0; k < 3; k++ { // orphans: cells no slot refers to
+				w.Cells = append(w.Cells, storage.VerifCell{Key: uint32(900000 + k), Val: []byte{0xee, byte(k)}})
+			}
+			out2, _, err2, pm2 := storage.VerifPageRoundTrip(path, w)
+			tr.Op("physvariant")
+			switch {
+			case pm2 != "":
+				tr.Tilde("differs: panic " + pm2)
+			case err2 != nil:
+				tr.Tilde("differs: error " + err2.Error())
+			case nodeLine(out2) != nodeLine(out): // the logical content: cells in slot order
+				a, b := nodeLine(out), nodeLine(out2)
+				if len(a) > 90 {
+					a = a[:90]
+				}
+				if len(b) > 90 {
+					b = b[:90]
+				}
+				tr.Tilde(fmt.Sprintf("differs: plain=[%s] variant%d=[%s]", a, variant, b))
+			default:
+				tr.Tilde("same")
+			}
+			cfg.st.Inc("physical-variants")
+		}
+	}
 	// two pages in flight: the bytes an encode returned still are that page after the next page has been
 	// encoded (an encoder that hands out shared memory shows here; inside one store the write follows the
 	// encode at once, two stores flushing side by side do not have that luck)
